@@ -27,6 +27,9 @@ type NodeDesc struct {
 
 type Topology struct {
 	Nodes []NodeDesc `json:"nodes"`
+	// Shuffle != 0: CLUSTER NODES lists the nodes in a permutation derived from it (redis lists them in dictionary order of an
+	// internal hash table: replicas may come before their master, the order may change between two descriptions)
+	Shuffle uint64 `json:"shuffle,omitempty"`
 }
 
 func (t *Topology) ByAddr(a string) *NodeDesc {
@@ -75,7 +78,19 @@ func (t *Topology) ReplicasOf(id string) []*NodeDesc {
 // Render produces CLUSTER NODES text as seen by node `self`.
 func (t *Topology) Render(self string) string {
 	var b strings.Builder
-	for _, n := range t.Nodes {
+	order := make([]int, len(t.Nodes))
+	for i := range order {
+		order[i] = i
+	}
+	if t.Shuffle != 0 {
+		r := NewRng(t.Shuffle)
+		for i := len(order) - 1; i > 0; i-- {
+			j := r.Intn(i + 1)
+			order[i], order[j] = order[j], order[i]
+		}
+	}
+	for _, oi := range order {
+		n := t.Nodes[oi]
 		flags := []string{}
 		if n.Addr == self {
 			flags = append(flags, "myself")
@@ -127,6 +142,7 @@ type Node struct {
 	Addr      string
 	Up        bool
 	AuxMode   string // "" answer, "stall" never answer, "refuse" refuse aux dials
+	Hung      bool   // the process is stopped: it neither reads what was sent to it nor answers (connections stay open)
 	Store     map[string][]byte
 	Migrating map[int]string // slot -> target addr
 	Importing map[int]string // slot -> source addr
@@ -157,6 +173,11 @@ type CmdRec struct {
 	Dropped  bool // connection died before the reply was fully released
 	AsReplica bool
 	Blocked  bool // queued behind a delayed/stalled reply on the same connection
+	// a reply that trickles: its first TrickleCut bytes leave with whatever precedes it, the rest TrickleFor later (a slow or
+	// busy node; TCP may deliver any prefix of a reply together with the end of the previous one)
+	TrickleCut   int
+	TrickleFor   time.Duration
+	TrickleUntil time.Time
 }
 
 type BConn struct {
@@ -173,6 +194,7 @@ type BConn struct {
 	Dead     bool
 	Cmds     []*CmdRec
 	Stalled  bool
+	prevLens []int // lengths of the last few replies released completely (aligned release)
 }
 
 type Cluster struct {
@@ -240,7 +262,8 @@ func tokensOf(args [][]byte) []string {
 	return out
 }
 
-// directives embedded in keys: ~E<n> error n, ~T stall forever, ~D<ms> delay, ~S<n> reply shape, ~L<n> reply length
+// directives embedded in keys: ~E<n> error n, ~T stall forever, ~D<ms> delay, ~S<n> reply shape, ~L<n> reply length,
+// ~P<ms> the reply trickles (a short prefix first, the rest <ms> later)
 func directives(keys [][]byte) map[byte]int {
 	d := map[byte]int{}
 	for _, k := range keys {
@@ -273,9 +296,21 @@ var ErrCatalogue = []string{
 	"-OOM command not allowed when used memory > 'maxmemory'.\r\n",
 	"-MASTERDOWN Link with MASTER is down and replica-serve-stale-data is set to 'no'.\r\n",
 	"-ERR syntax error\r\n",
-	"-MISCONF Redis is configured to save RDB snapshots, but it is currently not able to persist on disk.\r\n",
+	"-MISCONF Redis is configured to save RDB snapshots, but it is currently not able to persist on disk. Commands that may modify the data set are disabled, because this instance is configured to report errors during writes if RDB snapshotting fails (stop-writes-on-bgsave-error option). Please check the Redis logs for details about the RDB error.\r\n",
 	"-EXECABORT Transaction discarded because of previous errors.\r\n",
+	// long error texts of exact total lengths (incl. CRLF) around 128 bytes and beyond, as redis produces for unknown commands
+	// with many arguments or for script errors
+	longErr(127), longErr(128), longErr(129), longErr(130), longErr(131), longErr(200), longErr(1000),
 }
+
+func longErr(total int) string {
+	s := "-ERR unknown command 'frobnicate', with args beginning with: "
+	for i := 0; len(s) < total-2; i++ {
+		s += string(rune('a' + i%26))
+	}
+	return s[:total-2] + "\r\n"
+}
+
 
 // Redis' read-only commands among the ones rcproxy supports (from the redis command table, not from rcproxy).
 var readCmds = map[string]bool{}
@@ -464,6 +499,10 @@ func (c *Cluster) exec(bc *BConn, args [][]byte, raw []byte) *CmdRec {
 	}
 	if _, ok := d['T']; ok {
 		rec.HoldFor = -1
+	}
+	if v, ok := d['P']; ok {
+		rec.TrickleFor = time.Duration(v) * time.Millisecond
+		rec.TrickleCut = 1 + int(fnv(c.Seed, raw)%7)
 	}
 	if v, ok := d['E']; ok {
 		return reply(ErrCatalogue[v%len(ErrCatalogue)])
